@@ -134,6 +134,45 @@ def up_of(name):
     return name.lstrip('.').upper()
 
 
+def many_tails(ctx):
+    """_get_unique_sfn in directories where thousands of numeric tails are taken: the least free tail has five digits;
+    with every tail 1..MAX-1 taken the outcome is ENOSPC, never a name that is already in use"""
+    MemDir, ENTRY, lfn_valid, FatPath = _impl()
+    from nobodd.fat import DirectoryEntry
+    R = ctx.runner('FatNames')
+    def tail_name(n):
+        d = str(n)
+        return ('SHARED'[:7 - len(d)] + '~' + d).ljust(8).encode()
+    def directory(tails):
+        d = MemDir()
+        d._ents = [ENTRY._replace(filename=tail_name(n), ext=b'TXT') for n in tails] + [DirectoryEntry.eof()]
+        return d
+    top = MemDir.MAX_SFN_SUFFIX if hasattr(MemDir, 'MAX_SFN_SUFFIX') else 65535
+    scenarios = [('tails 1..10001 taken', list(range(1, 10002))),
+                 ('tails 1..9999 and 10001 taken', list(range(1, 10000)) + [10001]),
+                 ('tails 1..999 taken, 1000 free, 1001..12000 taken', list(range(1, 1000)) + list(range(1001, 12001)))]
+    if ctx.thorough or ctx.widen:
+        scenarios.append(('every tail taken', list(range(1, top))))
+        scenarios.append(('every tail but the last taken', list(range(1, top - 1))))
+    for label, tails in scenarios:
+        d = directory(tails)
+        ex = [['', tail_name(n).decode().strip() + '.TXT'] for n in tails]
+        with lib.time_limit(120, 'unique_sfn over a large directory'):
+            i = impl_res(d._get_unique_sfn, 'SHARED', 'TXT')
+        m = R.unres(R.call('unique_sfn', ['SHARED', 'TXT', ex]))
+        if m[0] == 'ok':
+            m = ('ok', lib.as_text(m[1]))
+        ctx.case(('many-tails', label), True, 'unique_sfn-many-tails')
+        info = dict(kind='many-tails', scenario=label, n_existing=len(tails))
+        taken = {e[1] for e in ex}
+        if i[0] == 'ok' and i[1] + '.TXT' in taken:
+            _viol(ctx, 'fs.names/alias-not-unique', f'{label}: _get_unique_sfn("SHARED", "TXT") returns {i[1]!r}, which an entry of the directory already uses', info)
+        elif i != m:
+            _viol(ctx, 'fs.names/model-unique_sfn', f'{label}: _get_unique_sfn("SHARED", "TXT") gives {i}, the model {m}', info)
+        elif i[0] == 'err' and (i[1] != 'ENOSPC' or len(tails) < top - 1):
+            _viol(ctx, 'fs.names/create-failed', f'{label}: _get_unique_sfn raised {i[1]} with {len(tails)} of {top - 1} tails taken', info)
+
+
 def wire_existing(listing):
     # _get_unique_sfn matches the tail patterns against the 8.3 name and the UPPER-CASED long name of every entry
     return [[l.upper(), s] for l, s in listing]
@@ -477,6 +516,8 @@ def run(ctx):
         if i != m:
             _viol(ctx, 'fs.names/model-unique_sfn', f'_get_unique_sfn({p!r}, {e!r}) in {dname}: impl {i} model {m}',
                           dict(kind='usfn', dir=dname, prefix=p, ext=e, existing=ex))
+
+    many_tails(ctx)
 
     # ---- 5. a growing directory: every creation through __setitem__, aliases stay distinct
     for fam in (lambda i: 'a' + ' ' * i + 'b', lambda i: f'Shared Prefix name {i}.txt', lambda i: 'ab'[i % 2] + ',;+='[i % 4] * (i // 4 + 1) + 'c',
